@@ -80,6 +80,13 @@ def _system(rsys):
     return subst, ren, shapes
 
 
+def _phases(rsys, ren):
+    ph = {s: 0 for s in kc.TRACE_SPECIES}
+    for k, sub in rsys.substances.items():
+        ph[ren[k]] = int(getattr(sub, "phase_idx", 0) or 0)
+    return ph
+
+
 def _plain_constant(param, ratex):
     from chempy.kinetics.rates import MassAction
     obj = param if ratex is None else ratex
@@ -122,23 +129,24 @@ def _record_rates(rsys, variables, substance_keys, ratexs, cstr_fr_fc, result):
         used.update(k for k, v in sh["reac"].items() if v)
     if any(variables.get(s) is None for s in subst if ren[s] in used):
         raise Skip("missing-concentration")
-    ev.append(dict(ev="SetState", subst=[ren[s] for s in subst], c=c))
+    ev.append(dict(ev="SetState", subst=[ren[s] for s in subst], c=c, phase=_phases(rsys, ren)))
     if cstr_fr_fc:
         fr, fc = cstr_fr_fc
-        if sorted(fc) != sorted(subst):
-            raise Skip("partial-feed-map")
+        if not fc or any(s not in ren for s in fc):
+            raise Skip("feed-map-key-not-a-substance")
         if symbolic:
             if not all(isinstance(variables[k], sympy.Symbol) for k in [fr] + list(fc.values())):
                 raise Skip("variable-not-a-bare-symbol")
             names[variables[fr]] = sympy.Symbol(kc.FEEDVAR)
-            for s in subst:
+            for s in fc:
                 names[variables[fc[s]]] = sympy.Symbol(kc.fcvar(ren[s]))
-            ev.append(dict(ev="Feed", F=[1, 1], cf={s: [1, 1] for s in kc.TRACE_SPECIES}))
+            ev.append(dict(ev="Feed", F=[1, 1], cf={s: [1, 1] for s in kc.TRACE_SPECIES},
+                           order=[ren[s] for s in fc], usermap=True))
         else:
             cf = {s: [1, 1] for s in kc.TRACE_SPECIES}
-            for s in subst:
+            for s in fc:
                 cf[ren[s]] = _q(variables[fc[s]])
-            ev.append(dict(ev="Feed", F=_q(variables[fr]), cf=cf))
+            ev.append(dict(ev="Feed", F=_q(variables[fr]), cf=cf, order=[ren[s] for s in fc], usermap=True))
     order = max(sum(sh["reac"].values()) for sh in shapes)
     qs = list(c.values()) + [e["F"] for e in ev if e["ev"] == "Feed"] + \
         [q for e in ev if e["ev"] == "Feed" for q in e["cf"].values()]
@@ -216,7 +224,7 @@ def _record_get_odesys(rsys, include_params, kwargs, out):
     c = {s: [1, 1] for s in kc.TRACE_SPECIES}
     for s, pv in zip(subst, _PRIMES):
         c[ren[s]] = [pv, 1]
-    ev.append(dict(ev="SetState", subst=[ren[s] for s in subst], c=c))
+    ev.append(dict(ev="SetState", subst=[ren[s] for s in subst], c=c, phase=_phases(rsys, ren)))
     bind = {}
     for (sh, r), e in zip(zip(shapes, rsys.rxns), ev):
         pass
@@ -230,7 +238,7 @@ def _record_get_odesys(rsys, include_params, kwargs, out):
             bind["fc_" + s] = [pv, 1]
         pren["feedratio"] = kc.FEEDVAR
         bind["feedratio"] = [73, 1]
-        ev.append(dict(ev="Feed", F=[73, 1], cf=cf))
+        ev.append(dict(ev="Feed", F=[73, 1], cf=cf, order=[ren[s] for s in subst], usermap=False))
     ev.append(dict(ev="Build", cfg=dict(kc.default_pk_fields(), builder="get_odesys", incl=bool(include_params),
                                         kinds=kinds, subs=["none"] * len(kinds), cstr=bool(cstr), comp=False,
                                         subvals=[[1, 1]] * len(kinds), aval=[1, 1], tval=[1, 1])))
